@@ -21,19 +21,28 @@ class Sink:
         raw = self._resolve_roles(F, raw_send)
         raw_io = F.fn(IO + "::send", flat=False)
         raw_ctor = [f for f in F.fn_all(FS + "::FileSink") if f.d.get("kind") == "ctor" and not f.d.get("copyctor") and not f.d.get("movector")][0]
-        raw_crc = F.fn("calculateCRC32", flat=False)
+        # the CRC routine matters to C05-O8 / C08 only: a sink that computes its checksum differently (incrementally, through zlib) must not make the
+        # other properties' checks lose their footing
+        crcs = [f for f in F.fn_all("calculateCRC32") if f.body is not None]
+        raw_crc = crcs[0] if len(crcs) == 1 else None
         # the functions the rules look at as units; every other private helper is spliced into its caller, so the
         # rules see the same code whether or not a maintainer has split a function
-        self.units = {f.id for f in raw.values()} | {raw_send.id, raw_io.id, raw_ctor.id, raw_crc.id}
+        self.units = {f.id for f in raw.values()} | {raw_send.id, raw_io.id, raw_ctor.id} | ({raw_crc.id} if raw_crc is not None else set())
         self.m = {name: flatten(F, f, stop=self.units) for name, f in raw.items()}
         self.send = flatten(F, raw_send, stop=self.units)
         self.io_send = flatten(F, raw_io, stop=self.units)
         self.fs_ctor = flatten(F, raw_ctor, stop=self.units)
         self.fs_flush = F.fn(FS + "::flush")
         self.fs_file = F.fn(FS + "::file")
-        self.crc = flatten(F, raw_crc, stop=self.units)
+        self._crc = flatten(F, raw_crc, stop=self.units) if raw_crc is not None else None
         ck.touch(self.send, self.io_send, self.fs_ctor, *self.m.values())
         self._g = {}
+
+    @property
+    def crc(self):
+        if self._crc is None:
+            raise AnalysisBroken("anchor function calculateCRC32 no longer resolves")
+        return self._crc
 
     def option_pred(self, name, fn=None):
         """predicate over AST nodes: "the sink was created with RotatingFileSink::<name>" - a bool member initialised from
@@ -197,7 +206,7 @@ class Sink:
         return self._own.get(id(n))
 
     def flat_units(self):
-        return list(self.m.values()) + [self.send, self.io_send, self.fs_ctor, self.crc]
+        return list(self.m.values()) + [self.send, self.io_send, self.fs_ctor] + ([self._crc] if self._crc is not None else [])
 
     def destructive_sites(self):
         """[(Fn, node, kind)] for every destructive file call reachable from the sinks' entry points; code of private helpers
